@@ -39,7 +39,7 @@ LinearModel::LinearModel
     }
 
     LDLT<MatrixXd> chol_ldlt(R_);
-    sqrt_R_ = (chol_ldlt.transpositionsP() * MatrixXd::Identity(R_.rows(), R_.cols())).transpose() * chol_ldlt.matrixL() * chol_ldlt.vectorD().real().cwiseSqrt().asDiagonal();
+    sqrt_R_ = (chol_ldlt.transpositionsP() * MatrixXd::Identity(R_.rows(), R_.cols())).transpose() * chol_ldlt.matrixL() * chol_ldlt.vectorD().real().cwiseMax(0.0).cwiseSqrt().asDiagonal();
 }
 
 
